@@ -537,6 +537,62 @@ func checkCollide(scen string, in ColIn) []*mc.Violation {
 	return vs
 }
 
+// ---------- decoding a second document into a struct that already holds the first ----------
+
+type TwiceIn struct {
+	First, Second [][2]string
+}
+
+func docText(fs [][2]string) string {
+	var sb strings.Builder
+	for _, f := range fs {
+		sb.WriteString(f[0] + ": " + f[1] + "\n")
+	}
+	return sb.String()
+}
+
+// checkTwice: every field that the second document contains must come out as in a fresh decode of the second document
+// (what happens to fields the second document lacks is not demanded).
+func checkTwice(scen string, in TwiceIn) []*mc.Violation {
+	var fresh, reused ProbeP
+	if err := control.Unmarshal(&fresh, strings.NewReader(docText(in.Second))); err != nil {
+		return nil
+	}
+	var e1, e2 error
+	if p, msg := mc.Guard(func() {
+		e1 = control.Unmarshal(&reused, strings.NewReader(docText(in.First)))
+		e2 = control.Unmarshal(&reused, strings.NewReader(docText(in.Second)))
+	}); p {
+		return []*mc.Violation{mc.V(scen, "unmarshal-returns", in, "no panic", msg)}
+	}
+	_ = e1
+	if e2 != nil {
+		return []*mc.Violation{mc.V(scen, "second-decode-succeeds", in, "nil error", e2.Error())}
+	}
+	var vs []*mc.Violation
+	fv, rv := reflect.ValueOf(&fresh).Elem(), reflect.ValueOf(&reused).Elem()
+	for _, f := range in.Second {
+		name := f[0]
+		if name == "X-Renamed" {
+			name = "Ren"
+		}
+		if name == "Req-C" {
+			name = "ReqC"
+		}
+		a, b := fv.FieldByName(name), rv.FieldByName(name)
+		if !a.IsValid() {
+			continue
+		}
+		if !fieldEqual(name, a, b) {
+			vs = append(vs, mc.V(scen, "reused-struct-decodes-like-a-fresh-one", in, fmt.Sprintf("%s=%+v", name, a.Interface()), fmt.Sprintf("%+v", b.Interface())))
+		}
+	}
+	if strings.Join(reused.Order, "|") != strings.Join(fresh.Order, "|") {
+		vs = append(vs, mc.V(scen, "reused-struct-decodes-like-a-fresh-one", in, fmt.Sprint(fresh.Order), fmt.Sprint(reused.Order)))
+	}
+	return vs
+}
+
 func Run(r *mc.Run) {
 	r.Rule = "probe structs (19 fields: every supported kind and tag) with <= 3 (quick) / 4 (thorough) fields at a non-default value, every combination of fields and values, with and without an embedded Paragraph; pass-through documents: every interleaving of <= 2 known and <= 2 unknown fields x 6 edits. Non-trivial = at least one non-default field / at least one unknown field; distinct by construction"
 	r.Assume = []string{"'optional zero fields are omitted' is read as: a field whose text rendering is empty and that is not required does not appear (int 0 / bool false / zero Arch / zero Version render as non-empty text and are written, which the suite pins for int and bool)",
@@ -668,6 +724,32 @@ func Run(r *mc.Run) {
 		}
 		return true
 	})
+	// a struct reused for a second document
+	twiceDocs := [][][2]string{
+		{{"Req", "q"}, {"ReqL", "x"}, {"Req-C", "x"}},
+		{{"Req", "q"}, {"ReqL", "x y"}, {"Req-C", "a, b"}, {"L", "a b c"}, {"LC", "a b, c"}, {"LI", "1 2 3"}, {"AL", "amd64 any-i386"}, {"V", "1:2.0-3"}, {"A", "linux-any"}, {"D", "foo, bar | baz"}, {"S", "s1"}, {"I", "7"}, {"U", "5"}, {"B", "yes"}},
+		{{"Req", "r"}, {"ReqL", "z"}, {"Req-C", "c"}, {"L", "d"}, {"LC", "e"}, {"LI", "9"}, {"AL", "all"}, {"V", "2.1"}, {"A", "amd64"}, {"D", "qux"}, {"S", "s2"}, {"I", "0"}, {"U", "0"}, {"B", "no"}},
+		{{"Req", "r"}, {"ReqL", ""}, {"Req-C", ""}, {"L", ""}, {"V", "3-1"}, {"D", ""}},
+		{{"Req", ""}, {"ReqL", "x"}, {"Req-C", "x"}, {"H", "\n aa11 10 f_1.dsc\n bb22 0 g.tar.xz"}, {"LN", "\n l1\n l 2"}},
+		{{"Req", "q"}, {"ReqL", "x"}, {"Req-C", "x"}, {"H", "\n cc33 5 h.dsc"}, {"LN", "\n m"}, {"P", "1.0-1"}},
+	}
+	r.Scenario("decode-into-reused-struct", map[string]interface{}{"documents": len(twiceDocs), "pairs": len(twiceDocs) * len(twiceDocs)}, len(twiceDocs), func(i int, st *mc.Stats) bool {
+		for _, y := range twiceDocs {
+			st.Evals++
+			st.Traces++
+			st.Nontrivial++
+			vs := checkTwice("decode-into-reused-struct", TwiceIn{twiceDocs[i], y})
+			if len(vs) == 0 {
+				st.Class("as-fresh")
+			}
+			for _, v := range vs {
+				st.Violate(v)
+				st.Class(v.Clause)
+			}
+		}
+		return true
+	})
+
 	// name collisions
 	var cols []ColIn
 	unknowns := [][][2]string{nil, {{"Values", "x"}}, {{"Order", "a b"}}, {{"Relations", "r"}}, {{"ABI", "musl"}}, {{"Stages", "s"}}, {{"Possibilities", "p"}}}
@@ -708,6 +790,13 @@ func Run(r *mc.Run) {
 }
 
 func Replay(scenario string, raw json.RawMessage) []*mc.Violation {
+	if scenario == "decode-into-reused-struct" {
+		var in TwiceIn
+		if json.Unmarshal(raw, &in) == nil {
+			return checkTwice(scenario, in)
+		}
+		return nil
+	}
 	if scenario == "nested-member-name-collisions" {
 		var in ColIn
 		if json.Unmarshal(raw, &in) == nil {
